@@ -346,7 +346,7 @@ def dispatcher_checks(chk, want):
             chk.hist['dispatcher:self-pair with a weak diagonal'] += 1
         a, b = list(c['a']), list(c['b'])
         wa, wb = a, b  # what a convenience wrapper receives
-        if entry in ('pw_align', 'nw_align', 'sw_align', 'we_align') and rng.random() < 0.4:
+        if entry in ('pw_align', 'nw_align', 'sw_align', 'we_align') and rng.random() < 0.4 and all(len(x) == 1 for x in a + b):
             # the wrappers also take strings (one segment per character) and tuples; a blank is a character like any other
             s0 = rng.choice(sorted(set(a + b)))
             c = dict(c, a=[' ' if x == s0 else x for x in a], b=[' ' if x == s0 else x for x in b],
